@@ -423,6 +423,30 @@ __CPROVER_assigns(g_task_wait, g_cancel_at_wait, g_pending, g_blocked_waits)
 __CPROVER_ensures(g_task_wait == __CPROVER_old(g_task_wait) + 1 && !g_pending)
 ;
 
+/* observers (C02 "one final result"): what the user reads is what the single completion stored; reading changes nothing */
+nng_err nng_aio_result(nng_aio *aio)
+__CPROVER_requires(__CPROVER_is_fresh(aio, sizeof(*aio)))
+__CPROVER_assigns()
+__CPROVER_ensures(__CPROVER_return_value == aio->a_result)
+;
+size_t nng_aio_count(nng_aio *aio)
+__CPROVER_requires(__CPROVER_is_fresh(aio, sizeof(*aio)))
+__CPROVER_assigns()
+__CPROVER_ensures(__CPROVER_return_value == aio->a_count)
+;
+/* message slot (C03): the pointer is stored / handed back as is -- nothing is freed, duplicated or dropped here, so
+ * ownership moves with the pointer exactly as the send / receive contracts above say */
+void nng_aio_set_msg(nng_aio *aio, nng_msg *msg)
+__CPROVER_requires(__CPROVER_is_fresh(aio, sizeof(*aio)))
+__CPROVER_assigns(aio->a_msg)
+__CPROVER_ensures(aio->a_msg == msg && g_free_calls == __CPROVER_old(g_free_calls))
+;
+nng_msg *nng_aio_get_msg(nng_aio *aio)
+__CPROVER_requires(__CPROVER_is_fresh(aio, sizeof(*aio)))
+__CPROVER_assigns()
+__CPROVER_ensures(__CPROVER_return_value == aio->a_msg && g_free_calls == __CPROVER_old(g_free_calls))
+;
+
 /* nng_aio_start (provider API, C02): every operation offered through the public wrapper starts CLEAN.
  * A cancel that lost the race with the completion of the PREVIOUS operation left its code latched
  * (a_abort); the wrapper discards it (nni_aio_reset) before nni_aio_start looks at the latch, so
